@@ -1077,7 +1077,11 @@ theorem nextFrameBuf_lag (cfg : Cfg) (hI : cfg.InflateOk) {t : TCfg} (ht : t.Ok)
       LagLe cfg v L m (nextFrameBuf cfg t A buf).1 (nextFrameBuf cfg t B buf).1 := by
   have hsub := hl.fields.2.1
   have hrm := hl.fields.2.2.2.1
-  unfold nextFrameBuf at hs ⊢
+  rw [nextFrameBuf_eq, nextFrameBuf_eq, hsub] at hs ⊢
+  by_cases hc : A.sub.cur.isSome = true
+  · rw [if_pos hc, if_pos hc] at hs ⊢; exact frameInto_lag cfg hI ht hl buf hInv hs
+  rw [if_neg hc, if_neg hc] at hs ⊢
+  unfold nextFrameBuf0 at hs ⊢
   rw [hrm, hsub] at hs ⊢
   by_cases hrem : A.remaining = 0
   · rw [if_pos hrem, if_pos hrem]; exact ⟨rfl, hl⟩
